@@ -174,7 +174,10 @@ pub struct Opts {
 }
 
 pub fn check_history(gi: usize, h: &[Ev], e: &mut Eng, o: &Opts) -> u64 {
-    let g = GAINS[gi];
+    check_history_g(GAINS[gi], gi, h, e, o)
+}
+/// the same for an arbitrary gain set (`gi` only labels the witness)
+pub fn check_history_g(g: Gains, gi: usize, h: &[Ev], e: &mut Eng, o: &Opts) -> u64 {
     let t0 = 10 * S;
     let n = h.len();
     let mut applied = n as u64;
@@ -435,5 +438,59 @@ pub fn run(ctx: &Ctx) -> Vec<Eng> {
         check_history(3, &h, e, &Opts { meta: false, compose: false })
     });
     e4.bounds.push_str(&format!("; plus long runs: every primitive word of length <= 2 repeated to 255..257 and 511..513 events followed by one event of each kind ({} histories)", long_count(5, 2, &LONG_LENS)));
-    vec![e1, e2, e3, e4]
+    // ---- dense sweeps of continuous parameters (ratios of consecutive intervals, of consecutive
+    // values, and each gain / the setpoint), 8-event histories, tolerance-mode reference
+    let grid = ratio_grid(if ctx.thorough { 32 } else { 16 }, 6);
+    let mut e5 = Eng::new(
+        "c04-ratio-sweeps",
+        "8-sample histories in which (a) consecutive sampling intervals alternate between d0 and d0*r (patterns d0,d0,d0r,d0r,d0,d0r,d0,d0 and its inverse), d0 in {7 ms, 0.5 s, 37 s}, (b) consecutive sample values are v0*q^k for exponent patterns 0,1,2,1,0,1,1,0, v0 in {1.7, -640}, (c) one of kp, ki, kd, setpoint is scaled by the ratio, for every ratio of a dense grid (geometric steps of 2^(1/16) (thorough 2^(1/32)) over 2^-6..2^6 plus 1 +- 2^-k, k = 3..20); full gain set; textbook reference with forward-error bound + composition oracle",
+        &format!("{} ratios x (6 interval + 2 value + 8 gain) sweeps", grid.len()),
+    );
+    {
+        let pat_a: [i32; 8] = [0, 0, 1, 1, 0, 1, 0, 0];
+        let vpat: [i32; 8] = [0, 1, 2, 1, 0, 1, 1, 0];
+        let mut cases: Vec<(u8, usize, f64)> = Vec::new();
+        for &r in &grid {
+            for k in 0..6 {
+                cases.push((0, k, r));
+            }
+            for k in 0..2 {
+                cases.push((1, k, r));
+            }
+            for k in 0..8 {
+                cases.push((2, k, r));
+            }
+        }
+        par_cases(&mut e5, &cases, budget, |&(what, k, r), e| {
+            e.executions += 1;
+            e.states += 1;
+            e.max_depth = e.max_depth.max(8);
+            let mut g = GAINS[3];
+            let h: Vec<Ev> = match what {
+                0 => {
+                    let d0 = [7_000_000i64, S / 2, 37 * S][k % 3] as f64;
+                    let inv = k >= 3;
+                    (0..8).map(|i| Ev::P((d0 * if (pat_a[i] == 1) != inv { r } else { 1.0 }).round().max(1.0) as i64, cyc[i % 4])).collect()
+                }
+                1 => {
+                    let v0 = [1.7f64, -640.0][k];
+                    (0..8).map(|i| Ev::P([S / 2, 700_000_000][i % 2], (v0 * r.powi(vpat[i])) as f32)).collect()
+                }
+                _ => {
+                    let base = if k >= 4 { GAINS[6] } else { GAINS[3] };
+                    g = base;
+                    match k % 4 {
+                        0 => g.kp = (base.kp as f64 * r) as f32,
+                        1 => g.ki = (base.ki as f64 * r) as f32,
+                        2 => g.kd = (base.kd as f64 * r) as f32,
+                        _ => g.sp = (base.sp as f64 * r) as f32,
+                    }
+                    (0..8).map(|i| Ev::P([S / 2, 700_000_000, 2 * S][i % 3], cyc[i % 4] * 1.3)).collect()
+                }
+            };
+            e.sample(|| format!("sweep kind {} #{} ratio {:.5} [{}]", what, k, r, show(&h)));
+            e.transitions += check_history_g(g, 99, &h, e, &Opts { meta: false, compose: true });
+        });
+    }
+    vec![e1, e2, e3, e4, e5]
 }
